@@ -80,6 +80,9 @@ class _TransformationWriter:
         self.transformer = transformer
 
     def write(self, source: StringSourceContents, output: TextIO):
+        # The process writes directly to the file descriptor of output:
+        # text written earlier must not be left in the buffer of the file object
+        output.flush()
         command_processor = self._command_processor(source, output)
         command_processor.process(
             self.environment.process_execution_settings,
